@@ -104,6 +104,50 @@ package jp
 //@       entry [C05 C11 slice-inner] hid < lo ==> hid < i && i <= lo && i + step <= hid && (lo - i) % (0 - step) == 0
 //@       invariant [C05 C11 slice-inner] lo < n && step < 0 && start == lo && len(results) == L0 && -1 < i
 
+// The same slice clause for gen.Array data (agreement of the representations, C11).
+//@   region sliceGenArray = case Slice > case gen.Array
+//@     parent sliceTop
+//@     let start0 = start
+//@     let end0 = end
+//@     let n = len(tv)
+//@     let lo = spec.SliceLo(start, len(tv))
+//@     let hi = spec.SliceHi(end, len(tv))
+//@     let hid = spec.SliceHiDown(end, len(tv))
+//@     let L0 = len(results)
+//@     let R0 = snap(results)
+//@     let S0 = len(stack)
+//@     let last0 = int(fi) == len(x) - 1
+//@     assume step != 0
+//@     assume [C05 C06 slice-step-magnitude] -1099511627776 <= step && step <= 1099511627776
+//@     assert [C05 C11 slice-none] !(lo < n) ==> len(results) == L0 && len(stack) == S0
+//@     assert [C05 C11 slice-fwd] step > 0 && last0 && lo < n ==> len(results) >= L0 && len(stack) == S0
+//@          && (len(results) > L0 ==> results[len(results)-1] == tv[lo + (len(results) - L0 - 1)*step] && lo + (len(results) - L0 - 1)*step < hi)
+//@          && lo + (len(results) - L0)*step >= hi
+//@          && (forall j: 0 <= j && j < L0 ==> results[j] == R0[j])
+//@     assert [C05 C11 slice-down] step < 0 && last0 && lo < n ==> len(results) >= L0 && len(stack) == S0
+//@          && (len(results) > L0 ==> results[len(results)-1] == tv[lo + (len(results) - L0 - 1)*step] && lo + (len(results) - L0 - 1)*step > hid)
+//@          && lo + (len(results) - L0)*step <= hid
+//@          && (forall j: 0 <= j && j < L0 ==> results[j] == R0[j])
+//@     assert [C05 C11 slice-inner] !last0 ==> len(results) == L0
+//@     loop 0
+//@       invariant [C05 C11 slice-fwd] lo < n && step > 0 && start == lo && end == hi && len(stack) == S0 && len(results) >= L0 && 0 <= i
+//@       invariant [C05 C11 slice-fwd] i == lo + (len(results) - L0)*step
+//@       invariant [C05 C11 slice-fwd] len(results) > L0 ==> results[len(results)-1] == tv[i - step] && i - step < hi
+//@       invariant [C05 C11 slice-fwd] forall j: 0 <= j && j < L0 ==> results[j] == R0[j]
+//@     loop 1
+//@       entry [C05 C11 slice-inner-empty] hi <= lo ==> i < start
+//@       entry [C05 C11 slice-inner] lo < hi ==> lo <= i && i < hi && hi <= i + step && (i - lo) % step == 0
+//@       invariant [C05 C11 slice-inner] lo < n && step > 0 && start == lo && len(results) == L0 && i < n
+//@     loop 2
+//@       invariant [C05 C11 slice-down] lo < n && step < 0 && start == lo && end == hid && len(stack) == S0 && len(results) >= L0 && i < n
+//@       invariant [C05 C11 slice-down] i == lo + (len(results) - L0)*step
+//@       invariant [C05 C11 slice-down] len(results) > L0 ==> results[len(results)-1] == tv[i - step] && i - step > hid
+//@       invariant [C05 C11 slice-down] forall j: 0 <= j && j < L0 ==> results[j] == R0[j]
+//@     loop 3
+//@       entry [C05 C11 slice-inner-empty] lo <= hid ==> start < i
+//@       entry [C05 C11 slice-inner] hid < lo ==> hid < i && i <= lo && i + step <= hid && (lo - i) % (0 - step) == 0
+//@       invariant [C05 C11 slice-inner] lo < n && step < 0 && start == lo && len(results) == L0 && -1 < i
+
 // Union fragment, integer member on a plain array: the member selects exactly the element its index denotes; the
 // found flag is cleared for every member (checked where the union loops enter these clauses).
 //@   region unionTop = case Union
@@ -119,6 +163,48 @@ package jp
 //@     let v0 = v
 //@     assume [C05 C11 union-reset] !has
 //@     assert [C05 C11 union-idx] has == (spec.NormIndex(i0, len(tv)) >= 0) && (has ==> v == tv[spec.NormIndex(i0, len(tv))]) && (!has ==> v == v0)
+
+// The same index clause for gen.Array data in Get, and for the other evaluators of the []any and gen.Array
+// representations (FirstFound, Has): they read exactly the element spec.NormIndex denotes, which is the agreement
+// point with Get (C11).
+//@   region nthGenArray = case Nth > case gen.Array
+//@     let i0 = i
+//@     let has0 = has
+//@     let v0 = v
+//@     assert [C05 C11 nth] spec.NormIndex(i0, len(tv)) >= 0 ==> has && v == tv[spec.NormIndex(i0, len(tv))]
+//@     assert [C05 C11 nth] spec.NormIndex(i0, len(tv)) < 0 ==> has == has0 && v == v0
+
+//@ func (Expr).FirstFound
+//@   opt forkappend = true
+//@   opt mergegoals = true
+//@   region nthAny = case Nth > case []any
+//@     let i0 = i
+//@     let has0 = has
+//@     let v0 = v
+//@     assert [C11 nth] spec.NormIndex(i0, len(tv)) >= 0 ==> has && v == tv[spec.NormIndex(i0, len(tv))]
+//@     assert [C11 nth] spec.NormIndex(i0, len(tv)) < 0 ==> has == has0 && v == v0
+//@   region nthGenArray = case Nth > case gen.Array
+//@     let i0 = i
+//@     let has0 = has
+//@     let v0 = v
+//@     assert [C11 nth] spec.NormIndex(i0, len(tv)) >= 0 ==> has && v == tv[spec.NormIndex(i0, len(tv))]
+//@     assert [C11 nth] spec.NormIndex(i0, len(tv)) < 0 ==> has == has0 && v == v0
+
+//@ func (Expr).Has
+//@   opt forkappend = true
+//@   opt mergegoals = true
+//@   region nthAny = case Nth > case []any
+//@     let i0 = i
+//@     let has0 = has
+//@     let v0 = v
+//@     assert [C11 nth] spec.NormIndex(i0, len(tv)) >= 0 ==> has && v == tv[spec.NormIndex(i0, len(tv))]
+//@     assert [C11 nth] spec.NormIndex(i0, len(tv)) < 0 ==> has == has0 && v == v0
+//@   region nthGenArray = case Nth > case gen.Array
+//@     let i0 = i
+//@     let has0 = has
+//@     let v0 = v
+//@     assert [C11 nth] spec.NormIndex(i0, len(tv)) >= 0 ==> has && v == tv[spec.NormIndex(i0, len(tv))]
+//@     assert [C11 nth] spec.NormIndex(i0, len(tv)) < 0 ==> has == has0 && v == v0
 
 // ---------------------------------------------------------------------------
 // Filter scripts are total (C12): evaluating the prefix-notation program never raises a runtime fault, for every operator
